@@ -25,7 +25,7 @@ def write_replay(prop, rec):
     return p
 
 
-def run_kani_jobs(res, jobs, note=None):
+def run_kani_jobs(res, jobs, note=None, fallback=None):
     """runs jobs, classifies outcomes into res (Result). Returns list of raw results."""
     prop = res.prop
     # residual harnesses required by known findings are added automatically
@@ -42,30 +42,41 @@ def run_kani_jobs(res, jobs, note=None):
             seen.add(k)
             alljobs.append(j)
     results, build_s = kanirun.run_many(alljobs)
+    # fast-path harnesses (leaf stubs) that fail are re-decided by their direct (unstubbed) harness
+    if fallback:
+        redo = []
+        for r in results:
+            if r["outcome"] != "PASS" and r["harness"] in fallback:
+                log("  %s %s[%s] -> deciding with the direct harness %s" % (r["outcome"], r["harness"], r["cfg"], fallback[r["harness"]]))
+                res.items.append({"engine": "kani", "harness": r["harness"], "cfg": r["cfg"], "outcome": r["outcome"] + "->fallback",
+                                  "failed": [f["desc"] for f in r.get("failed", [])]})
+                redo.append({"cfg": r["cfg"], "harness": fallback[r["harness"]], "timeout": 2700, "mem_gb": 14})
+        if redo:
+            results = [r for r in results if not (r["outcome"] != "PASS" and r["harness"] in fallback)]
+            r2, b2 = kanirun.run_many(redo)
+            results += r2
     by = {(r["cfg"], r["harness"]): r for r in results}
     res.extra.setdefault("kani_build_s", {}).update(build_s)
     for r in results:
         st = r.get("stats", {})
-        item = {"engine": "kani", "harness": r["harness"], "cfg": r["cfg"], "outcome": r["outcome"], "wall_s": r.get("wall_s"),
-                "covers": r.get("covers", []), "steps": st.get("steps"), "vccs": st.get("vccs"), "vars": st.get("vars"),
-                "clauses": st.get("clauses"), "symex_s": st.get("symex_s"), "solver_s": st.get("solver_s"),
-                "sat_calls": st.get("sat_calls"), "stubs_applied": st.get("stubs_applied")}
+        item = {"engine": "kani", "harness": r["harness"], "cfg": r["cfg"], "outcome": r["outcome"], "verification_s": st.get("verification_s"),
+                "cbmc_checks": st.get("checks"), "cbmc_checks_failed": st.get("checks_failed"),
+                "covers_satisfied": "%s/%s" % (st.get("covers_satisfied"), st.get("covers"))}
         res.items.append(item)
-        res.queries += max(1, st.get("sat_calls", 0) or 0)
-        res.states += st.get("steps", 0) or 0
-        res.transitions += st.get("vccs", 0) or 0
+        res.queries += 1
+        res.extra["cbmc_checks_discharged"] = res.extra.get("cbmc_checks_discharged", 0) + (st.get("checks") or 0)
+        res.extra["kani_verification_s_sum"] = round(res.extra.get("kani_verification_s_sum", 0) + (st.get("verification_s") or 0), 1)
         key = "%s[%s]" % (r["harness"], r["cfg"])
         if r["outcome"] == "PASS":
             res.nontrivial += 1
-            res.samples.append({"harness": r["harness"], "cfg": r["cfg"], "verdict": "SUCCESSFUL", "steps": st.get("steps"),
-                                "vars": st.get("vars"), "clauses": st.get("clauses"),
-                                "covers": [c["desc"] for c in r.get("covers", [])][:4]})
+            res.samples.append({"harness": r["harness"], "cfg": r["cfg"], "verdict": "SUCCESSFUL", "cbmc_checks": st.get("checks"),
+                                "verification_s": st.get("verification_s")})
             log("  PASS   %-40s %-5s %6.1fs" % (r["harness"], r["cfg"], r.get("wall_s", 0)))
             continue
         if r["outcome"] in ("TIMEOUT", "ERROR", "UNWIND", "BUILD-ERROR", "VACUOUS"):
             msg = "%s: %s" % (key, r["outcome"])
             if r["outcome"] == "VACUOUS":
-                msg += " (cover not satisfied: %s)" % [c for c in r["covers"] if c["status"] != "SATISFIED"]
+                msg += " (reachability witness not satisfied: %s of %s covers)" % (st.get("covers_satisfied"), st.get("covers"))
             if r.get("tail"):
                 item["tail"] = r["tail"][-1200:]
             res.inconclusive.append(msg)
@@ -112,4 +123,19 @@ def run_kani_jobs(res, jobs, note=None):
             msg = "%s: solver reported %s but no counter-example reproduced natively (%d tried)" % (key, descs, len(tests))
             res.norepro.append(msg)
             log("  NOT-REPRODUCED " + msg)
+    # CBMC statistics sample: one passing harness re-run in regular output mode (the batch runs use the terse format)
+    passing = [r for r in results if r["outcome"] == "PASS" and not r.get("residual")]
+    if passing and os.environ.get("VERIF_NO_STATS") != "1":
+        r = passing[res.seed % len(passing)]
+        s1 = kanirun.run_harness(r["cfg"], r["harness"], timeout=900)
+        st = s1.get("stats", {})
+        res.extra.setdefault("cbmc_stats_sample", []).append({"harness": r["harness"], "cfg": r["cfg"], "outcome": s1["outcome"],
+            "program_steps": st.get("steps"), "vccs": st.get("vccs"), "vccs_after_simplification": st.get("vccs_remaining"),
+            "sat_variables": st.get("vars"), "sat_clauses": st.get("clauses"), "symex_s": st.get("symex_s"),
+            "solver_s": st.get("solver_s"), "sat_calls": st.get("sat_calls"), "stubs_applied": st.get("stubs_applied"),
+            "covers": s1.get("covers")})
+        res.states += st.get("steps", 0) or 0
+        res.transitions += st.get("vccs", 0) or 0
+        if s1["outcome"] != r["outcome"]:
+            res.inconclusive.append("%s[%s]: batch run said %s, regular-mode re-run said %s" % (r["harness"], r["cfg"], r["outcome"], s1["outcome"]))
     return results
